@@ -21,6 +21,7 @@ type Item struct {
 	Class string `json:"class,omitempty"` // in: generator label
 	W     int    `json:"w,omitempty"`
 	H     int    `json:"h,omitempty"`
+	Fail  bool   `json:"fail,omitempty"` // resize: the backend's SetSize reports an error
 }
 
 func (it Item) bytes() []byte {
@@ -55,7 +56,8 @@ type caseResult struct {
 	Tags       []string // token tags of every step (statistics)
 	Cut        bool     // stopped at a divergence / panic
 	Sanctioned bool     // stopped at the sanctioned keep-wide corner
-	Diverged   bool     // the model was lost at some step (the rest ran on the implementation alone)
+	Diverged   bool     // model and implementation disagreed at some step
+	nDiverge   int
 	Final      []string // final observation of the implementation (for cross comparisons)
 	Replies    []byte
 	Events     []string
@@ -169,6 +171,71 @@ func diffObs(io obsBlock, mo modelObs) []string {
 	return projs
 }
 
+// freshDiffs compares the two observations and returns the projections that differ now and
+// did not differ after the previous step (per-step projections — replies, events, scrolled-off
+// rows — are always fresh). `diverged` is updated to the current set of persistent differences.
+func freshDiffs(io obsBlock, mo modelObs, diverged map[string]bool) []string {
+	all := diffObs(io, mo)
+	now := map[string]bool{}
+	var fresh []string
+	rowFresh := map[string]bool{}
+	for _, p := range all {
+		switch p {
+		case "G", "E", "W", "L":
+			fresh = append(fresh, p)
+		case "R0", "R1":
+			// row by row
+		default:
+			now[p] = true
+			if !diverged[p] {
+				fresh = append(fresh, p)
+			}
+		}
+	}
+	// rows: the model and the implementation print changed rows only, so a row that differed
+	// before and is printed by neither side still differs
+	for k := range diverged {
+		if strings.HasPrefix(k, "row ") {
+			rk := k[4:]
+			_, a := io.rows[rk]
+			_, b := mo.rows[rk]
+			if !a && !b {
+				now[k] = true
+			}
+		}
+	}
+	for k, v := range io.rows {
+		mv, ok := mo.rows[k]
+		if !ok {
+			mv = mo.prev[k]
+		}
+		if mv != v {
+			// the row changed at this step (on the implementation's side) and the two sides
+			// disagree about it: a finding of this step, also when they disagreed before
+			now["row "+k] = true
+			rowFresh["R"+k[:1]] = true
+		}
+	}
+	for k, mv := range mo.rows {
+		if _, ok := io.rows[k]; !ok && io.all[k] != mv {
+			now["row "+k] = true
+			rowFresh["R"+k[:1]] = true
+		}
+	}
+	for _, k := range []string{"R0", "R1"} {
+		if rowFresh[k] {
+			fresh = append(fresh, k)
+		}
+	}
+	for k := range diverged {
+		delete(diverged, k)
+	}
+	for k := range now {
+		diverged[k] = true
+	}
+	return fresh
+}
+
 func describeDiff(io obsBlock, mo modelObs, projs []string) string {
 	var sb strings.Builder
 	seen := map[string]bool{}
@@ -216,7 +283,7 @@ func runCase(c *Case, d *driver, opts runOpts) (res caseResult) {
 	im.be.shortCycle = c.ShortWrites
 	useModel := !opts.noModel && d != nil && !(c.Mode == 1 && c.Grid)
 	step := 0
-	addF := func(f finding) { f.Grid = c.Grid; res.Findings = append(res.Findings, f) }
+	addF := func(f finding) { f.Grid = c.Grid; f.Gmode = c.Mode == 1; res.Findings = append(res.Findings, f) }
 
 	var snapCheck = func(tags string, evFrom, wrFrom int) {
 		snap := im.vt.Snap()
@@ -251,6 +318,7 @@ func runCase(c *Case, d *driver, opts runOpts) (res caseResult) {
 	var gstate graphemeMergeState
 	prevSnap := im.vt.Snap()
 	var stepBytes []byte
+	diverged := map[string]bool{} // projections and rows on which the two sides already disagree
 	compare := func(cmd string, tags *string) bool {
 		evFrom, wrFrom := im.evMark, im.wrMark
 		pre := prevSnap
@@ -276,11 +344,9 @@ func runCase(c *Case, d *driver, opts runOpts) (res caseResult) {
 				res.Diverged = true
 				return opts.keepGoing
 			}
-			if projs := diffObs(io, mo); len(projs) > 0 {
-				// from here on the model is out of step: keep running the implementation alone
-				// (panics, wedges and the API monitors still mean something)
-				useModel = false
+			if projs := freshDiffs(io, mo, diverged); len(projs) > 0 {
 				if strings.Contains(*tags, "tK") && strings.Count(*tags, ",") > 0 {
+					useModel = false
 					// known corner (see known_findings.json, keep-wide-run): a run of several
 					// characters inserted after a wide character; the case ends here
 					res.Sanctioned = true
@@ -293,11 +359,20 @@ func runCase(c *Case, d *driver, opts runOpts) (res caseResult) {
 				}
 				addF(finding{Step: step, Kind: "diverge", Clause: strings.Join(projs, "+"), Tags: *tags, Detail: describeDiff(io, mo, projs),
 					Alt: strings.HasSuffix(mo.lines["G"], " 1")})
-				res.Cut = !opts.keepGoing
 				res.Diverged = true
-				// still run the monitors on this state
-				snapCheckSafe(im, step, *tags, evFrom, wrFrom, &res.Findings)
-				return opts.keepGoing
+				if hasProj(strings.Join(projs, "+"), "G") || res.nDiverge > 12 {
+					// the two sides no longer agree on what has been consumed (or disagree again and
+					// again): the model is lost; panics, wedges and the API monitors still mean something
+					useModel = false
+					res.Cut = !opts.keepGoing
+					snapCheckSafe(im, step, *tags, evFrom, wrFrom, &res.Findings)
+					return opts.keepGoing
+				}
+				// Otherwise both sides go on in lock-step: what differs now is remembered, and only
+				// differences that are new at a later step are reported there (a wrong reply, a
+				// wrong notification or a newly differing row further on is still a finding, also
+				// when it is a consequence of this one)
+				res.nDiverge++
 			}
 		}
 		res.Tags = append(res.Tags, *tags)
@@ -309,9 +384,20 @@ func runCase(c *Case, d *driver, opts runOpts) (res caseResult) {
 	for i < len(c.Items) && !res.Cut {
 		it := c.Items[i]
 		switch it.Kind {
+		case "refront":
+			// the owner installs another frontend object (SetFrontend): nothing observable changes
+			step++
+			im.swapFrontend()
+			tags := "refront"
+			im.observe(false)
+			snapCheckSafe(im, step, tags, len(im.fe.events), len(im.be.written), &res.Findings)
+			i++
 		case "resize":
 			step++
-			if pan := im.resize(it.W, it.H); pan != "" {
+			im.be.failSize = it.Fail
+			pan := im.resize(it.W, it.H)
+			im.be.failSize = false
+			if pan != "" {
 				addF(finding{Step: step, Kind: "panic", Prop: "C01", Clause: "resize", Tags: "resize", Detail: pan})
 				res.Cut = true
 				break
